@@ -23,6 +23,7 @@
 mod config;
 mod generic_client;
 
+#[cfg_attr(deadpool_verif, allow(unused_imports))]
 use std::{
     borrow::Cow,
     collections::HashMap,
@@ -234,7 +235,10 @@ where
 /// access for clearing all caches and removing single statements from them.
 #[derive(Default, Debug)]
 pub struct StatementCaches {
+    #[cfg(not(deadpool_verif))]
     caches: Mutex<Vec<Weak<StatementCache>>>,
+    #[cfg(deadpool_verif)]
+    caches: deadpool::verif::PlainMutex<Vec<Weak<StatementCache>>>,
 }
 
 impl StatementCaches {
@@ -308,12 +312,20 @@ struct StatementCacheKey<'a> {
 /// and [`ClientWrapper::prepare_typed_cached()`] methods instead (or the
 /// similar ones on [`Transaction`]).
 pub struct StatementCache {
+    #[cfg(not(deadpool_verif))]
     map: RwLock<HashMap<StatementCacheKey<'static>, Statement>>,
+    #[cfg(not(deadpool_verif))]
     size: AtomicUsize,
+    #[cfg(deadpool_verif)]
+    map: deadpool::verif::RwLock<HashMap<StatementCacheKey<'static>, Statement>>,
+    #[cfg(deadpool_verif)]
+    size: deadpool::verif::AtomicUsize,
 }
 
 impl StatementCache {
     fn new() -> Self {
+        #[cfg(deadpool_verif)]
+        use deadpool::verif::{AtomicUsize, RwLock};
         Self {
             map: RwLock::new(HashMap::new()),
             size: AtomicUsize::new(0),
